@@ -60,7 +60,7 @@ def verdict_for(kind, shard, v):
         be, outs = DC.run_spec(kind, spec, batches)
     except ZeroDivisionError:
         return "raises-ZeroDivisionError@%s" % name
-    as_map = spec["op"] == "value_counts" or bool(spec.get("groupby"))
+    as_map = spec["op"] == "value_counts" or bool(spec.get("groupby")) or spec.get("kind") == "frame2"
     seen = 0
     for k, out in enumerate(outs, start=1):
         seen += lens[k - 1]
@@ -176,6 +176,7 @@ def length_patterns(nb, maxrows, total=None):
 
 
 SPECS = ([{"op": o} for o in ("sum", "count", "size", "mean", "value_counts")]
+         + [{"op": o, "kind": "frame2"} for o in ("sum", "count", "mean")]
          + [{"op": o, "kind": "frame", "groupby": g}
             for o in ("sum", "count", "size", "mean", "var") for g in ("column", "stream")])
 
@@ -191,8 +192,9 @@ def obligations(tier):
             if q and gb and sum(lens) > 3:
                 continue
             n = sum(lens)
-            name = "%s%s/lens=%s" % (spec["op"], "/by-" + spec["groupby"] if gb else "",
-                                     "-".join(map(str, lens)))
+            name = "%s%s%s/lens=%s" % ("frame-" if spec.get("kind") == "frame2" else "", spec["op"],
+                                       "/by-" + spec["groupby"] if gb else "",
+                                       "-".join(map(str, lens)))
             obls.append({"name": name, "body": "body", "pre": "pre",
                          "shard": {"spec": spec, "lens": list(lens)},
                          "types": ["int"] * (2 * n if gb else n), "budget": B})
